@@ -30,7 +30,7 @@ SPEC = {
     "id": "C17",
     "coq_props": ["Properties/C17.v", "Properties/C17conc.v", "Corr/C17.v"],
     "module": "MS.Properties.C17 MS.Properties.C17conc",
-    "theorems": ["C17_seq_K1", "C17_seq_K2", "C17_anyname_refuted", "C17conc_refuted"],
+    "theorems": ["C17_seq_K1", "C17_seq_K2", "C17_anyname_refuted", "C17conc_refuted", "C17conc_guarded_K"],
     "corr_require": "Require Import MS.Corr.C17.",
     "agrees": "C17.agrees",
     "in_domain": "C17.in_domain",
@@ -60,9 +60,11 @@ SPEC = {
                   "requests over the key spaces {A/1Min/G, A/5Min/G, B/1Min/G} and {A/1Min/G, A/1Min/H, B/1Min/G} x years {2021,2022} x two schemas, from an empty root, the "
                   "in-memory catalog (tree and directMap) equals catalog.NewDirectory of the disk, and its buckets and years are exactly those of the specification state. "
                   "Induction over the sequence; invariant = explicit table of the 730 reachable states per key space, closure under the 41 requests checked by vm_compute. "
-                  "C17_anyname_refuted: a symbol called metadata.db is listed by the running catalog but skipped by a restart.",
-    "level_note": "No axioms. The general statement over all names/years (C17_seq_general) is stated, not proved. Concurrent half: refutation witness on an interleaving model + race replay "
-                  "of the real RemoveTimeBucket against AddTimeBucket (no LTS proof of the positive direction). Modelled not verified: catalog/catalog.go, frontend/write.go, executor/writer.go (catalog part).",
+                  "C17_anyname_refuted: a symbol called metadata.db is listed by the running catalog but skipped by a restart. Concurrent: C17conc_refuted (Destroy || Create below one symbol) and "
+                  "C17conc_guarded_K: on the interleaving model, for EVERY schedule of one AddTimeBucket thread (whole or scan/install) and one step-wise RemoveTimeBucket thread over two buckets x two years "
+                  "that never work below the same symbol, every quiescent state is consistent (reachable set by BFS, closure by vm_compute).",
+    "level_note": "No axioms. The general statement over all names/years (C17_seq_general) is stated, not proved. Concurrent half: refutation witness + bounded guarded theorem on an interleaving model "
+                  "(node ids canonically renumbered after every label), race replay of the real RemoveTimeBucket against AddTimeBucket; the real mutexes are assumed. Modelled not verified: catalog/catalog.go, frontend/write.go, executor/writer.go (catalog part).",
     "design_ref": "§6 C17",
     "post": race_post,
 }
